@@ -12,6 +12,7 @@ CONSTANTS
   Drivers = {"iour", "poll"}
   Impls = {"blocking", "pidfd"}
   Families = {"echo", "consumer", "producer", "exit", "status", "held"}
+  BlockingChildPipes = FALSE
 SPECIFICATION FairSpec
 INVARIANTS TypeOK WaitSafe
 PROPERTIES ExitLeadsToWait MustCompleteCompletes
